@@ -24,7 +24,7 @@ READS = {"Bucket": ["metadata", "get", "get_by_id", "get_eventcount"], "Datastor
 STORAGE = ("self.ds.storage_strategy", "self.storage_strategy")
 
 
-def wrapper_rules(prog, rep, rule="WRAP", parts=("state", "reads", "arguments", "purity")):
+def wrapper_rules(prog, rep, rule="WRAP", parts=("state", "reads", "arguments", "purity"), arg_skip=()):
     rep.rule(rule, "Datastore / Bucket keep no state besides the handle table, return what the storage returned, hand their arguments to the storage unchanged (window rounding and the `created` default aside) and do not write into the objects they are given")
     for cname in ("Datastore", "Bucket"):
         ci = prog.cls(cname)
@@ -70,6 +70,8 @@ def wrapper_rules(prog, rep, rule="WRAP", parts=("state", "reads", "arguments", 
         # ---- arguments
         if "arguments" in parts:
             for fi in ci.methods.values():
+                if fi.short in arg_skip:
+                    continue
                 for c in prog.all_calls(fi):
                     if not (isinstance(c.func, ast.Attribute) and norm(c.func.value) in STORAGE):
                         continue
